@@ -155,6 +155,7 @@ func defectBlock(kind string, n int, r *Rand) string {
 			"GET /znm%[1]d/{id}\n  Path\n    {\"id\": %[2]s}\n  200 any\n",
 			"GET /znm%[1]d/{id}\n  Path\n    { // {allOf: \"%[2]s\"}\n      \"id\": 1\n    }\n  200 any\n",
 			"URL /znm%[1]d/{id}\n  Path\n    %[2]s\n  GET\n    200 any\n  POST\n    Path\n      %[2]s\n    200 any\n",
+			"URL /znm%[1]d/{id}\n  Path\n    {\"id\": %[2]s}\n  GET\n    200 any\n  DELETE\n    200 any\n",
 			"GET /znm%[1]d\n  Query \"a=1\"\n    %[2]s\n  200 any\n",
 			"GET /znm%[1]d\n  Query \"a=1\"\n    { // {allOf: \"%[2]s\"}\n      \"a\": 1\n    }\n  200 any\n",
 			"POST /znm%[1]d\n  Request\n    Headers\n      %[2]s\n    Body %[2]s\n  200\n    Headers\n      %[2]s\n    Body any\n",
@@ -170,7 +171,7 @@ func defectBlock(kind string, n int, r *Rand) string {
 		for i := 0; i < r.Range(1, 2); i++ {
 			ui := r.Intn(len(uses))
 			if r.Chance(1, 3) {
-				ui = r.Intn(4) // the Path directive is where most of the unchecked assumptions about types were found
+				ui = r.Intn(5) // the Path directive is where most of the unchecked assumptions about types were found
 			}
 			fmt.Fprintf(&sb, strings.Replace(uses[ui], "znm%[1]d", fmt.Sprintf("znm%%[1]d_%d", i), -1), n, t)
 		}
@@ -182,7 +183,12 @@ func defectBlock(kind string, n int, r *Rand) string {
 		}
 		fmt.Fprintf(&sb, "GET /zum%d\n  200\n    {\"a\": @um%d_0, \"b\": @um%d_1}\n", n, n, n)
 	case "undefined-macros":
-		fmt.Fprintf(&sb, "GET /zm%d\n  200 any\n  PASTE @nomacro%da\n  PASTE @nomacro%db\n", n, n, n)
+		if !r.Chance(1, 2) {
+			fmt.Fprintf(&sb, "GET /zm%d\n  200 any\n  PASTE @nomacro%da\n  PASTE @nomacro%db\n", n, n, n)
+		} else {
+			// near misses of macros the valid part of the project may define (@errs, @errs2, ...)
+			fmt.Fprintf(&sb, "MACRO @nmac%da\n(\n  404 any\n)\nMACRO @nmac%db\n(\n  405 any\n)\nGET /zmn%d\n  200 any\n  PASTE %s\n", n, n, n, []string{"@err", "@errs9", fmt.Sprintf("@nmac%d", n), fmt.Sprintf("@nmac%dc", n)}[r.Intn(4)])
+		}
 	case "bad-enum-bodies":
 		for i := 0; i < k; i++ {
 			fmt.Fprintf(&sb, "ENUM @be%d_%d\n  [\"a\", \"a\"]\n", n, i)
